@@ -100,7 +100,7 @@ func exists(p string) bool { _, err := os.Stat(p); return err == nil }
 func doMig(es []v1Entry, t *rt.Trace) {
 	dir := tmpDir()
 	defer os.RemoveAll(dir)
-	topics := []string{"A", "B"}
+	topics := []string{"A", "AB"}
 	path := join(dir, "k.db")
 	writeV1(path, es)
 	orig := join(dir, "orig.db")
@@ -162,7 +162,7 @@ func doMig(es []v1Entry, t *rt.Trace) {
 		}
 		s2, snap2, errText := openOn(p2, nil)
 		if s2 == nil {
-			t.Event("Reopen", rt.M{"ok": false, "err": errText, "state": rt.M{"A": []any{}, "B": []any{}}, "bakLeft": exists(p2 + alertservice.TopicStoreBackupSuffix)})
+			t.Event("Reopen", rt.M{"ok": false, "err": errText, "state": rt.M{"A": []any{}, "AB": []any{}}, "bakLeft": exists(p2 + alertservice.TopicStoreBackupSuffix)})
 		} else {
 			t.Event("Reopen", rt.M{"ok": true, "err": "", "state": migState(s2, topics), "bakLeft": exists(p2 + alertservice.TopicStoreBackupSuffix)})
 			s2.Close()
@@ -170,7 +170,7 @@ func doMig(es []v1Entry, t *rt.Trace) {
 			// and once more (a second restart must not migrate again or lose anything)
 			s3, snap3, errText3 := openOn(p2, nil)
 			if s3 == nil {
-				t.Event("Reopen", rt.M{"ok": false, "err": errText3, "state": rt.M{"A": []any{}, "B": []any{}}, "bakLeft": exists(p2 + alertservice.TopicStoreBackupSuffix)})
+				t.Event("Reopen", rt.M{"ok": false, "err": errText3, "state": rt.M{"A": []any{}, "AB": []any{}}, "bakLeft": exists(p2 + alertservice.TopicStoreBackupSuffix)})
 			} else {
 				t.Event("Reopen", rt.M{"ok": true, "err": "", "state": migState(s3, topics), "bakLeft": exists(p2 + alertservice.TopicStoreBackupSuffix)})
 				s3.Close()
@@ -185,7 +185,7 @@ func doMig(es []v1Entry, t *rt.Trace) {
 // with distinct (topic, ID), up to renaming, plus the empty store.
 func RunMig(r *rt.Run) error {
 	t := r.NewTrace("mig")
-	keys := [][2]string{{"A", "a"}, {"A", "b"}, {"B", "a"}, {"B", "b"}}
+	keys := [][2]string{{"A", "a"}, {"A", "ab"}, {"AB", "a"}, {"AB", "ab"}}
 	maxN := 2
 	if r.Thorough() {
 		maxN = 4
@@ -211,6 +211,6 @@ func RunMig(r *rt.Run) error {
 	}
 	r.Extra["v1_contents"] = len(all)
 	r.Extra["max_entries"] = maxN
-	r.Finish("V1 topic stores (sets of (topic, ID, level) over 2 topics x 2 IDs x 4 levels) migrated by Service.Open on an observed store; for every commit boundary of every namespace during Open the database and the migration's backup file as they stood are copied and a fresh service is opened on the copy, twice; distinct by (V1 content, boundary)", true)
+	r.Finish("V1 topic stores (sets of (topic, ID, level) over topics A, AB x IDs a, ab x 4 levels) migrated by Service.Open on an observed store; for every commit boundary of every namespace during Open the database and the migration's backup file as they stood are copied and a fresh service is opened on the copy, twice; distinct by (V1 content, boundary)", true)
 	return nil
 }
